@@ -46,6 +46,58 @@ def _const(v):
     raise AnchorError("not a constant string")
 
 
+def _const_prefix(v):
+    """(leading literal text of a string expression, whether the whole expression is literal): the text before the first
+    formatted value of an f-string / concatenation, however the remainder is produced"""
+    if isinstance(v, ast.Constant) and isinstance(v.value, str):
+        return v.value, True
+    if isinstance(v, ast.BinOp) and isinstance(v.op, ast.Add):
+        l, full = _const_prefix(v.left)
+        if not full:
+            return l, False
+        r, rfull = _const_prefix(v.right)
+        return l + r, rfull
+    if isinstance(v, ast.JoinedStr):
+        out = ""
+        for x in v.values:
+            if isinstance(x, ast.Constant) and isinstance(x.value, str):
+                out += x.value
+            else:
+                return out, False
+        return out, True
+    return "", False
+
+
+def _fab_literals(tree):
+    """leading literals of every string expression of a module that starts with the FAB header magic, in source order"""
+    out = []
+    for n in ast.walk(tree):
+        if isinstance(n, (ast.Constant, ast.JoinedStr, ast.BinOp)):
+            try:
+                lit, _ = _const_prefix(n)
+            except Exception:
+                continue
+            if lit.startswith("FAB (") and lit not in out:
+                out.append(lit)
+    # a literal that is a proper prefix of another one is a piece of it
+    return [l for l in out if not any(o != l and o.startswith(l) for o in out)]
+
+
+def _fab_literal(tree, primary):
+    """the FAB header literal: at its pinned anchor when that still exists, otherwise the one string of the module that
+    starts with the FAB magic (moved to a module constant, inlined in an f-string, ...)"""
+    try:
+        lit = primary()
+        if lit.startswith("FAB ("):
+            return lit
+    except AnchorError:
+        pass
+    lits = _fab_literals(tree)
+    if len(lits) != 1:
+        raise AnchorError(f"{len(lits)} candidate FAB header literals")
+    return lits[0]
+
+
 def _s(s):
     return json.dumps(s)
 
@@ -64,12 +116,14 @@ def generate():
 
     def utils_hdr():
         u = _tree('amr_kitchen/utils.py')
-        return f"def utilsHeaderConst : String := {_s(_const(_assigned(_func(u, 'header_from_indices'), 'header_const')))}"
+        lit = _fab_literal(u, lambda: _const_prefix(_assigned(_func(u, 'header_from_indices'), 'header_const'))[0])
+        return f"def utilsHeaderConst : String := {_s(lit)}"
     item("utils.header_from_indices.header_const", utils_hdr, 'def utilsHeaderConst : String := ""')
 
     def mand_hdr():
         m = _tree('amr_kitchen/mandoline/mandoline.py')
-        return f"def mandolineHeaderConst : String := {_s(_const(_assigned(_func(m, 'write_cell_data_at_level'), 'new_header')))}"
+        lit = _fab_literal(m, lambda: _const_prefix(_assigned(_func(m, 'write_cell_data_at_level'), 'new_header'))[0])
+        return f"def mandolineHeaderConst : String := {_s(lit)}"
     item("mandoline.write_cell_data_at_level.new_header", mand_hdr, 'def mandolineHeaderConst : String := ""')
 
     def mand_thr():
